@@ -1,6 +1,7 @@
 package c06
 
 import (
+	"fmt"
 	"math/rand"
 	"strconv"
 	"strings"
@@ -265,8 +266,8 @@ func genTreeDepth(r *rand.Rand, depth int, refs bool) Obj {
 }
 
 // ---------------------------------------------------------------------------
-// content-stream programs (ISO 32000-1 Annex A operator table, without the
-// inline-image operators BI/ID/EI whose payload is not object syntax)
+// content-stream programs (ISO 32000-1 Annex A operator table; inline images
+// BI/ID/EI are generated by genInlineImage)
 
 type opSig struct {
 	name string
@@ -348,6 +349,10 @@ func genProgram(r *rand.Rand, maxOps int) []pdfsyn.Op {
 	n := 1 + r.Intn(maxOps)
 	ops := make([]pdfsyn.Op, 0, n)
 	for i := 0; i < n; i++ {
+		if r.Intn(40) == 0 {
+			ops = append(ops, genInlineImage(r)...)
+			continue
+		}
 		s := opTable[r.Intn(len(opTable))]
 		// the quote operators and starred operators are rarer in a uniform draw; boost them
 		if r.Intn(8) == 0 {
@@ -364,6 +369,46 @@ func genProgram(r *rand.Rand, maxOps int) []pdfsyn.Op {
 		ops = append(ops, op)
 	}
 	return ops
+}
+
+// genInlineImage returns the three operations BI, ID (with the image
+// dictionary's key/value pairs as operands, §8.9.7) + raw data, EI. The data
+// never contain a white-space byte followed by "EI", so the end of the image
+// is unambiguous.
+func genInlineImage(r *rand.Rand) []pdfsyn.Op {
+	w, h := 1+r.Intn(6), 1+r.Intn(6)
+	id := pdfsyn.Op{Operator: "ID", Operands: []Obj{
+		{K: pdfsyn.KName, S: []byte("W")}, {K: pdfsyn.KInt, I: int64(w)},
+		{K: pdfsyn.KName, S: []byte("H")}, {K: pdfsyn.KInt, I: int64(h)},
+		{K: pdfsyn.KName, S: []byte("BPC")}, {K: pdfsyn.KInt, I: 8},
+		{K: pdfsyn.KName, S: []byte("CS")}, {K: pdfsyn.KName, S: []byte("G")},
+	}}
+	var data []byte
+	if r.Intn(3) == 0 {
+		id.Operands = append(id.Operands, Obj{K: pdfsyn.KName, S: []byte("F")}, Obj{K: pdfsyn.KName, S: []byte("AHx")})
+		const hx = "0123456789abcdef"
+		for i := 0; i < 2*w*h; i++ {
+			data = append(data, hx[r.Intn(16)])
+		}
+		data = append(data, '>')
+	} else {
+		data = make([]byte, w*h)
+		for {
+			r.Read(data)
+			probe := append(append([]byte{' '}, data...), " EI"...)
+			ok := true
+			for i := 0; i+2 < len(probe)-2; i++ { // any "<ws>EI" before the final one?
+				if (probe[i] == 0 || probe[i] == 9 || probe[i] == 10 || probe[i] == 12 || probe[i] == 13 || probe[i] == 32) && probe[i+1] == 'E' && probe[i+2] == 'I' {
+					ok = false
+				}
+			}
+			if ok {
+				break
+			}
+		}
+	}
+	id.RawAfter = data
+	return []pdfsyn.Op{{Operator: "BI"}, id, {Operator: "EI"}}
 }
 
 func indexOf(name string) int {
@@ -383,6 +428,9 @@ func describeProgram(ops []pdfsyn.Op) string {
 			sb.WriteByte(' ')
 		}
 		sb.WriteString(op.Operator)
+		if op.RawAfter != nil {
+			fmt.Fprintf(&sb, " %x", op.RawAfter)
+		}
 		sb.WriteByte('\n')
 	}
 	return sb.String()
